@@ -1,196 +1,57 @@
 package c01
 
 import (
-	"context"
 	"encoding/json"
 	"fmt"
 	"os"
 	"strconv"
 	"strings"
 	"testing"
-	"time"
 
 	"github.com/elnosh/gonuts/cashu"
-	"github.com/elnosh/gonuts/cashu/nuts/nut05"
 	"pgregory.net/rapid"
 
-	"verif/harness/dbproxy"
-	"verif/harness/lnmodel"
+	"verif/harness/race"
 	"verif/harness/rec"
 	"verif/harness/sched"
 	"verif/harness/world"
 )
 
-// A concurrent case: 2..3 requests over overlapping input sets on a fresh mint, interleaved at
-// storage / Lightning call granularity by the cooperative scheduler.
+// A concurrent case: 2..3 requests over overlapping input sets on a fresh mint (optionally after a melt that was left
+// pending), interleaved at storage / Lightning call granularity by the cooperative scheduler. The harness is shared
+// (package race); this file holds the C01 oracle.
 
-type reqSpec struct {
-	Kind   string `json:"kind"`   // swap | melt | check
-	Inputs []int  `json:"inputs"` // indices into the funded proofs
-	LN     string `json:"ln"`     // melt: success | pending | failed | error
-}
-
-type caseSpec struct {
-	Reqs   []reqSpec `json:"reqs"`
-	Fee    uint      `json:"fee_ppk"`
-	Seed   uint64    `json:"seed"`
-	Choice []int     `json:"choice,omitempty"` // grant vector (enumeration / replay)
-}
-
-type outcome struct {
-	spec     reqSpec
-	err      error
-	accepted bool // swap returned signatures / melt issued a pay call
-	state    string
-}
+type reqSpec = race.Req
+type caseSpec = race.Case
 
 type execResult struct {
-	outs      []outcome
-	trace     string
-	opts      []int
-	choices   []int
-	switches  int
-	blocked   int
+	race.Result
 	violation string
 	detail    string
 	knownHit  bool
 }
 
-var lnAns = map[string]lnmodel.PayAnswer{"success": lnmodel.PaySuccess, "pending": lnmodel.PayPending, "failed": lnmodel.PayFailed, "error": lnmodel.PayError}
+var kinds = []string{"swap", "swap", "melt", "melt", "check", "pollmelt"}
 
-// run executes the case under the chooser.
-func run(t world.T, cs caseSpec, choose sched.Chooser) execResult {
-	w := world.New(t, world.Config{CaseSeed: 100 + cs.Seed, FeePpk: cs.Fee, FeeMode: lnmodel.FeeZero})
-	defer w.Close()
-	// fund four proofs of 8 sat
-	q, err := w.RequestMintQuote(32, nil)
-	if err != nil {
-		t.Fatalf("setup: %v", err)
-	}
-	w.PayInvoice(q)
-	if _, err := w.MintTokens(q, w.MakeOutputs([]uint64{8, 8, 8, 8}, w.ActiveID), ""); err != nil {
-		t.Fatalf("setup: %v", err)
-	}
-	funded := w.M.ProofsIn(world.Unspent)
-	s := sched.New()
-	hook := func(pos string) { s.Yield(pos) }
-	w.DB.Hook = func(c *dbproxy.Call) error { hook(c.Method); return nil }
-	w.LN.Hook = func(c *lnmodel.Call) error { hook("LN." + c.Method); return nil }
-	w.LN.PayByHash = map[string]lnmodel.PayAnswer{}
-	w.LN.ErrTruth = lnmodel.TruthNone
-	res := execResult{outs: make([]outcome, len(cs.Reqs))}
-	type prepared struct {
-		inputs cashu.Proofs
-		msgs   cashu.BlindedMessages
-		quote  *world.MMeltQuote
-		ys     []string
-	}
-	preps := make([]prepared, len(cs.Reqs))
-	// preparation (quotes, outputs) happens before the scheduler is armed: hooks ignore the harness goroutine
-	for i, r := range cs.Reqs {
-		var p prepared
-		var total uint64
-		for _, ix := range r.Inputs {
-			p.inputs = append(p.inputs, funded[ix].P)
-			p.ys = append(p.ys, funded[ix].Y)
-			total += funded[ix].P.Amount
-		}
-		fee := w.FeeFor(p.inputs)
-		switch r.Kind {
-		case "swap":
-			p.msgs = world.Msgs(w.MakeOutputs(world.Split(total-fee), w.ActiveID))
-		case "melt":
-			inv := w.Net.ExternalInvoice((total - fee) * 1000)
-			mq, err := w.RequestMeltQuote(inv.Request, 0)
-			if err != nil {
-				t.Fatalf("setup: %v", err)
-			}
-			p.quote = mq
-			w.LN.PayByHash[mq.Hash] = lnAns[r.LN]
-		}
-		preps[i] = p
-	}
-	for i, r := range cs.Reqs {
-		i, r, p := i, r, preps[i]
-		res.outs[i].spec = r
-		s.Go(fmt.Sprintf("%s%d", r.Kind, i), func() (any, error) {
-			switch r.Kind {
-			case "swap":
-				sigs, err := w.Mint.Swap(p.inputs, p.msgs)
-				res.outs[i].err = err
-				res.outs[i].accepted = err == nil && len(sigs) == len(p.msgs)
-			case "melt":
-				ctx, cancel := context.WithTimeout(context.Background(), 20*time.Second)
-				defer cancel()
-				mq, err := w.Mint.MeltTokens(ctx, nut05.PostMeltBolt11Request{Quote: p.quote.ID, Inputs: p.inputs})
-				res.outs[i].err = err
-				res.outs[i].state = mq.State.String()
-			case "check":
-				_, err := w.Mint.ProofsStateCheck(p.ys)
-				res.outs[i].err = err
-			}
-			return nil, nil
-		})
-	}
-	var choices []int
-	err = s.Run(func(step int, enabled []*sched.Task, cur int) int {
-		c := choose(step, enabled, cur)
-		choices = append(choices, c)
-		return c
-	})
-	w.DB.Hook, w.LN.Hook = nil, nil
-	res.trace = s.TraceString()
-	res.switches = s.Switches
-	res.blocked = s.Blocked
-	res.choices = choices
-	for _, st := range s.Trace {
-		if st.Opts > 1 {
-			res.opts = append(res.opts, st.Opts)
-		}
-	}
-	if err != nil {
-		res.violation, res.detail = "C01|sched|scheduler_error", err.Error()
-		return res
-	}
-	for _, tk := range s.Tasks() {
-		if tk.Panic != nil {
-			res.violation, res.detail = "C01|sched|panic|"+tk.Name, fmt.Sprint(tk.Panic)
-			return res
-		}
-	}
-	// a melt "accepted" its inputs from the moment a pay call for its invoice was issued - unless that payment
-	// definitively failed (then the inputs were legitimately released and may be used again)
-	for i, r := range cs.Reqs {
-		if r.Kind == "melt" {
-			for _, c := range w.LN.Log() {
-				if (c.Method == "SendPayment" || c.Method == "PayPartialAmount") && c.Hash == preps[i].quote.Hash {
-					if p := w.LN.Payment(c.Hash); p != nil && (p.Truth == lnmodel.TruthSucceeded || p.Truth == lnmodel.TruthInflight) {
-						res.outs[i].accepted = true
-					}
-				}
-			}
-		}
-	}
-	// oracle: per secret at most one accepting operation; every unordered pair of accepting operations is a
-	// violation with its own signature
-	for ix, fp := range funded {
-		var by []string
-		for i, r := range cs.Reqs {
-			if !res.outs[i].accepted {
+// oracle: the C01 verdict over one executed schedule; runs with the world still open (follow-up probes).
+func oracle(cs caseSpec, res *execResult) func(w *world.World, r *race.Result) {
+	return func(w *world.World, r *race.Result) {
+		// per secret at most one accepting operation; every unordered pair of accepting operations is a violation
+		// with its own signature
+		accepted := r.AcceptedBy(cs)
+		for ix, by := range accepted {
+			if len(by) <= 1 {
 				continue
 			}
-			for _, j := range r.Inputs {
-				if j == ix {
-					by = append(by, r.Kind)
-				}
+			var kindsOnly []string
+			for _, b := range by {
+				kindsOnly = append(kindsOnly, strings.SplitN(b, "_", 2)[0])
 			}
-		}
-		if len(by) > 1 {
-			sortStrings(by)
+			sortStrings(kindsOnly)
 			pairs := map[string]bool{}
-			for a := 0; a < len(by); a++ {
-				for b := a + 1; b < len(by); b++ {
-					pairs[by[a]+"+"+by[b]] = true
+			for a := 0; a < len(kindsOnly); a++ {
+				for b := a + 1; b < len(kindsOnly); b++ {
+					pairs[kindsOnly[a]+"+"+kindsOnly[b]] = true
 				}
 			}
 			for pr := range pairs {
@@ -200,127 +61,88 @@ func run(t world.T, cs caseSpec, choose sched.Chooser) execResult {
 					continue
 				}
 				res.violation = sig
-				res.detail = fmt.Sprintf("secret #%d (%s) accepted by %v; outcomes %s; schedule: %s", ix, fp.P.Secret[:12], by, fmtOutcomes(res.outs), res.trace)
-				return res
+				res.detail = fmt.Sprintf("secret #%d (%s) accepted by %v; outcomes %s; schedule: %s", ix, r.Funded[ix].P.Secret[:12], by, r.FmtOutcomes(), r.Trace)
+				return
 			}
 		}
-	}
-	if res.knownHit {
-		return res
-	}
-	// final states: every secret accepted by a swap or by a settled melt is SPENT; states are never "both"
-	var ys []string
-	for _, fp := range funded {
-		ys = append(ys, fp.Y)
-	}
-	st, err := w.Mint.ProofsStateCheck(ys)
-	if err != nil {
-		res.violation, res.detail = "C01|sched|final_checkstate_failed", err.Error()
-		return res
-	}
-	for ix := range funded {
-		for i, r := range cs.Reqs {
-			if !res.outs[i].accepted || r.Kind != "swap" {
+		if res.knownHit {
+			return
+		}
+		if r.StatesErr != nil {
+			res.violation, res.detail = "C01|sched|final_checkstate_failed", r.StatesErr.Error()
+			return
+		}
+		// final states: every secret accepted by a swap is SPENT; a secret that a melt accepted (payment in flight or
+		// succeeded) is locked or spent, whatever the other requests did on their way out - and a further spend of
+		// it, after everything has settled down, is refused
+		for ix, by := range accepted {
+			if len(by) == 0 {
 				continue
 			}
-			for _, j := range r.Inputs {
-				if j == ix && st[ix].State.String() != "SPENT" {
-					res.violation = "C01|sched|swapped_secret_not_spent"
-					res.detail = fmt.Sprintf("secret #%d swapped but reported %s; schedule: %s", ix, st[ix].State, res.trace)
-					return res
-				}
+			if by[0] == "swap" && r.States[ix] != "SPENT" {
+				res.violation = "C01|sched|swapped_secret_not_spent"
+				res.detail = fmt.Sprintf("secret #%d swapped but reported %s; schedule: %s", ix, r.States[ix], r.Trace)
+				return
+			}
+			if r.States[ix] == "UNSPENT" {
+				res.violation = "C01|sched|accepted_secret_reported_unspent|by=" + by[0]
+				res.detail = fmt.Sprintf("secret #%d was accepted by %s but is reported UNSPENT once all requests have returned; outcomes %s; schedule: %s", ix, by[0], r.FmtOutcomes(), r.Trace)
+				return
+			}
+			in := cashu.Proofs{r.Funded[ix].P}
+			fee := w.FeeFor(in)
+			if _, err := w.Mint.Swap(in, world.Msgs(w.MakeOutputs(world.Split(r.Funded[ix].P.Amount-fee), w.ActiveID))); err == nil {
+				res.violation = "C01|sched|accepted_secret_spendable_again|by=" + by[0]
+				res.detail = fmt.Sprintf("secret #%d was accepted by %s and a later swap of it succeeded; outcomes %s; schedule: %s", ix, by[0], r.FmtOutcomes(), r.Trace)
+				return
 			}
 		}
 	}
-	// a secret that a melt accepted (payment in flight or succeeded) is locked or spent, whatever the other requests
-	// did on their way out - and a further spend of it, after everything has settled down, is refused
-	for ix, fp := range funded {
-		acceptedBy := ""
-		for i, r := range cs.Reqs {
-			if !res.outs[i].accepted {
-				continue
-			}
-			for _, j := range r.Inputs {
-				if j == ix {
-					acceptedBy = r.Kind
-					if r.Kind == "melt" {
-						acceptedBy += "_" + r.LN
-					}
-				}
-			}
-		}
-		if acceptedBy == "" {
-			continue
-		}
-		if st[ix].State.String() == "UNSPENT" {
-			res.violation = "C01|sched|accepted_secret_reported_unspent|by=" + acceptedBy
-			res.detail = fmt.Sprintf("secret #%d was accepted by %s but is reported UNSPENT once all requests have returned; outcomes %s; schedule: %s", ix, acceptedBy, fmtOutcomes(res.outs), res.trace)
-			return res
-		}
-		in := cashu.Proofs{fp.P}
-		fee := w.FeeFor(in)
-		if _, err := w.Mint.Swap(in, world.Msgs(w.MakeOutputs(world.Split(fp.P.Amount-fee), w.ActiveID))); err == nil {
-			res.violation = "C01|sched|accepted_secret_spendable_again|by=" + acceptedBy
-			res.detail = fmt.Sprintf("secret #%d was accepted by %s and a later swap of it succeeded; outcomes %s; schedule: %s", ix, acceptedBy, fmtOutcomes(res.outs), res.trace)
-			return res
-		}
+}
+
+// run executes the case under the chooser and applies the oracle.
+func run(t world.T, cs caseSpec, choose sched.Chooser) execResult {
+	var res execResult
+	res.Result = race.Run(t, cs, choose, oracle(cs, &res))
+	if res.SchedErr != nil {
+		res.violation, res.detail = "C01|sched|scheduler_error", res.SchedErr.Error()
+	} else if res.Panic != "" {
+		res.violation, res.detail = "C01|sched|panic|"+strings.SplitN(res.Panic, ":", 2)[0], res.Panic
 	}
 	return res
 }
 
 func sortStrings(s []string) {
-	for i := range s {
-		for j := i + 1; j < len(s); j++ {
-			if s[j] < s[i] {
-				s[i], s[j] = s[j], s[i]
-			}
+	for i := 1; i < len(s); i++ {
+		for j := i; j > 0 && s[j] < s[j-1]; j-- {
+			s[j], s[j-1] = s[j-1], s[j]
 		}
 	}
 }
 
-func fmtOutcomes(o []outcome) string {
-	var l []string
-	for i, x := range o {
-		l = append(l, fmt.Sprintf("%s%d{accepted=%v state=%s err=%v}", x.spec.Kind, i, x.accepted, x.state, x.err))
-	}
-	return strings.Join(l, " ")
-}
-
-func genCase(t *rapid.T) caseSpec {
-	n := rapid.IntRange(2, 3).Draw(t, "n_requests")
-	cs := caseSpec{Fee: rapid.SampledFrom([]uint{0, 100}).Draw(t, "fee"), Seed: rapid.Uint64Range(0, 1000).Draw(t, "seed")}
-	for i := 0; i < n; i++ {
-		r := reqSpec{Kind: rapid.SampledFrom([]string{"swap", "swap", "melt", "melt", "check"}).Draw(t, "kind")}
-		// all requests contain proof 0 (the shared secret) plus optionally others
-		r.Inputs = []int{0}
-		if rapid.Bool().Draw(t, "more_inputs") {
-			r.Inputs = append(r.Inputs, 1+rapid.IntRange(0, 2).Draw(t, "extra_input"))
-		}
-		if r.Kind == "melt" {
-			r.LN = rapid.SampledFrom([]string{"success", "pending", "failed", "error"}).Draw(t, "ln")
-		}
-		cs.Reqs = append(cs.Reqs, r)
-	}
-	return cs
-}
+func genCase(t *rapid.T) caseSpec { return race.GenCase(t, kinds) }
 
 func record(cs caseSpec, r execResult) {
 	rec.Eval()
-	kinds := []string{}
+	ks := []string{}
 	spending := 0
 	for _, q := range cs.Reqs {
-		kinds = append(kinds, q.Kind)
-		if q.Kind != "check" {
+		ks = append(ks, q.Kind)
+		if q.Kind == "swap" || q.Kind == "melt" {
 			spending++
 		}
 	}
-	sortStrings(kinds)
-	rec.Class("sched_ops=" + strings.Join(kinds, "+"))
-	if spending >= 2 && r.switches >= 1 {
-		rec.NonTrivial(fmt.Sprintf("%v|%v", cs.Reqs, r.choices))
+	if cs.Pre != "" {
+		spending++
+		rec.Class("sched_pre=" + cs.Pre)
+	}
+	sortStrings(ks)
+	rec.Class("sched_ops=" + strings.Join(ks, "+"))
+	if spending >= 2 && r.Switches >= 1 {
+		rec.NonTrivial(fmt.Sprintf("%v|%s|%v", cs.Reqs, cs.Pre, r.Choices))
 		rec.Class("sched_nontrivial")
 	}
-	if r.blocked > 0 {
+	if r.Blocked > 0 {
 		rec.Class("sched_blocked_task_seen")
 	}
 }
@@ -334,8 +156,8 @@ func propSched(t *rapid.T) {
 	if r.violation != "" && !rec.IsKnown(r.violation) {
 		t.Fatalf("VIOLATION %s: %s", r.violation, r.detail)
 	}
-	if r.switches >= 1 {
-		rec.Sample("schedule", map[string]any{"requests": cs.Reqs, "outcomes": fmtOutcomes(r.outs), "schedule": r.trace})
+	if r.Switches >= 1 {
+		rec.Sample("schedule", map[string]any{"requests": cs.Reqs, "pre": cs.Pre, "outcomes": r.FmtOutcomes(), "schedule": r.Trace})
 	}
 }
 
@@ -348,79 +170,33 @@ type fatalT struct{ t *testing.T }
 func (f fatalT) Fatalf(format string, a ...any) { f.t.Fatalf(format, a...) }
 func (f fatalT) Logf(format string, a ...any)   {}
 
-// enumerate explores schedules of cs depth-first below the subtree given by `fixed` (option values of the
-// first decisions, never backtracked). maxPreempt < 0: unbounded (complete). Option v at a decision means
-// "the (def+v)-th enabled task" where def continues the current task, so option 0 never pre-empts.
 func enumerate(t *testing.T, cs caseSpec, maxPreempt int, fixed []int, onResult func(execResult)) int {
-	count := 0
-	prefix := append([]int{}, fixed...)
-	for {
-		var branching []int
-		var taken []int
-		preempts := 0
-		invalid := false
-		r := run(fatalT{t}, cs, func(step int, enabled []*sched.Task, cur int) int {
-			k := len(taken)
-			def := 0
-			if cur >= 0 {
-				def = cur
-			}
-			b := len(enabled)
-			v := 0
-			if k < len(prefix) {
-				v = prefix[k]
-			}
-			if maxPreempt >= 0 && preempts >= maxPreempt && cur >= 0 {
-				if k < len(fixed) && v != 0 {
-					invalid = true
-				}
-				taken = append(taken, 0)
-				branching = append(branching, 1)
-				return cur
-			}
-			if v >= b {
-				invalid = true
-				v = 0
-			}
-			if cur >= 0 && v != 0 {
-				preempts++
-			}
-			taken = append(taken, v)
-			branching = append(branching, b)
-			return (def + v) % b
-		})
-		if invalid || len(taken) < len(fixed) {
-			return count // this subtree does not exist
+	var cur execResult
+	return race.Enumerate(fatalT{t}, cs, maxPreempt, fixed, func(w *world.World, r *race.Result) {
+		cur = execResult{}
+		oracle(cs, &cur)(w, r)
+	}, func(r race.Result) {
+		out := cur
+		out.Result = r
+		if r.SchedErr != nil {
+			out.violation, out.detail = "C01|sched|scheduler_error", r.SchedErr.Error()
+		} else if r.Panic != "" {
+			out.violation, out.detail = "C01|sched|panic|"+strings.SplitN(r.Panic, ":", 2)[0], r.Panic
 		}
-		count++
-		onResult(r)
-		i := len(taken) - 1
-		for ; i >= len(fixed); i-- {
-			if taken[i]+1 < branching[i] {
-				break
-			}
-		}
-		if i < len(fixed) {
-			return count
-		}
-		prefix = append(append([]int{}, taken[:i]...), taken[i]+1)
-	}
+		cur = execResult{}
+		onResult(out)
+	})
 }
 
 func pairName(cs caseSpec) string {
-	var l []string
+	var k []string
+	if cs.Pre != "" {
+		k = append(k, "pre_"+cs.Pre)
+	}
 	for _, r := range cs.Reqs {
-		l = append(l, r.Kind+r.LN)
+		k = append(k, r.Kind+r.LN)
 	}
-	return strings.Join(l, "|")
-}
-
-func hashInts(v []int) int {
-	h := 17
-	for _, x := range v {
-		h = (h*31 + x + 1) % 1000003
-	}
-	return h
+	return strings.Join(k, "_")
 }
 
 var pairCases = []caseSpec{
@@ -434,6 +210,16 @@ var pairCases = []caseSpec{
 	{Reqs: []reqSpec{{Kind: "melt", Inputs: []int{0}, LN: "success"}, {Kind: "check", Inputs: []int{0}}}},
 	{Reqs: []reqSpec{{Kind: "swap", Inputs: []int{0}}, {Kind: "check", Inputs: []int{0}}}},
 	{Reqs: []reqSpec{{Kind: "melt", Inputs: []int{0}, LN: "failed"}, {Kind: "check", Inputs: []int{0}}}},
+	// a melt that was left pending before, its payment meanwhile succeeded / failed: the request that finds out races
+	// a spend of the same secret
+	{Pre: "melt_succeeded", Reqs: []reqSpec{{Kind: "check", Inputs: []int{0}}, {Kind: "swap", Inputs: []int{0}}}},
+	{Pre: "melt_succeeded", Reqs: []reqSpec{{Kind: "pollmelt", Quote: -1}, {Kind: "swap", Inputs: []int{0}}}},
+	{Pre: "melt_succeeded", Reqs: []reqSpec{{Kind: "pollmelt", Quote: -1}, {Kind: "melt", Inputs: []int{0}, LN: "success"}}},
+	{Pre: "melt_failed", Reqs: []reqSpec{{Kind: "check", Inputs: []int{0}}, {Kind: "swap", Inputs: []int{0}}}},
+	{Pre: "melt_inflight", Reqs: []reqSpec{{Kind: "pollmelt", Quote: -1}, {Kind: "swap", Inputs: []int{0}}}},
+	// three requests: a state check or quote poll in the middle of a melt, and a swap of the same secret
+	{Reqs: []reqSpec{{Kind: "melt", Inputs: []int{0}, LN: "success"}, {Kind: "check", Inputs: []int{0}}, {Kind: "swap", Inputs: []int{0}}}},
+	{Reqs: []reqSpec{{Kind: "melt", Inputs: []int{0}, LN: "success"}, {Kind: "pollmelt", Quote: 0}, {Kind: "swap", Inputs: []int{0}}}},
 }
 
 func TestSchedEnum(t *testing.T) {
@@ -463,7 +249,7 @@ func TestSchedEnum(t *testing.T) {
 			fixed := []int{sub & 1, (sub >> 1) & 1, (sub >> 2) & 1}
 			cnt := enumerate(t, cs, bound, fixed, func(r execResult) {
 				c2 := cs
-				c2.Choice = r.choices
+				c2.Choice = r.Choices
 				record(c2, r)
 				if r.violation != "" && !rec.IsKnown(r.violation) {
 					bad++
@@ -480,7 +266,7 @@ func TestSchedEnum(t *testing.T) {
 		rec.ClassN(fmt.Sprintf("sched_enum_pair%d_%s", ci, pairName(pairCases[ci])), cnt)
 	}
 	if bound < 0 && shard == 0 {
-		rec.Exhaustive("all interleavings (storage/LN-call granularity) of the 10 request pairs", 0)
+		rec.Exhaustive(fmt.Sprintf("all interleavings (storage/LN-call granularity) of the %d request sets", len(pairCases)), 0)
 	}
 	if bad > 0 {
 		t.Fatalf("%d violating schedules", bad)
